@@ -36,6 +36,7 @@ Inductive violation :=
 | VTime (actor : Z)
 | VLoad (actor : Z)
 | VMulti (actor : Z) (job : Z)        (* sub-jobs missing, repeated or out of the permitted order *)
+| VDemand (actor : Z)                 (* negative amounts / service time, delivery of a multi job before its pickup *)
 | VCompat (actor : Z)
 | VEmptyRoute (actor : Z)
 | VGroup (group : Z)
@@ -48,6 +49,7 @@ Definition b2n (b : bool) : nat := if b then 1%nat else 0%nat.
 Definition list_eqb (a b : list Z) : bool := if list_eq_dec Z.eq_dec a b then true else false.
 Definition report {A} (ok : A -> bool) (v : A -> violation) (l : list A) : list violation :=
   flat_map (fun x => if ok x then [] else [v x]) l.
+Definition flag (ok : bool) (v : violation) : list violation := if ok then [] else [v].
 
 (* ---------------- per route ---------------- *)
 Definition tour_of (r : rdump) : list act := map fst (r_acts r).
@@ -83,23 +85,40 @@ Definition multi_ok (P : pworld) (r : rdump) (j : Z) : bool :=
   | None => false
   end.
 
-Definition compats (P : pworld) (r : rdump) : list Z :=
-  filter (fun c => negb (c =? 0)) (map (fun j => match find_job P j with Some s => j_compat s | None => 0 end) (job_ids r)).
+(* what job j has on board along the tour never goes negative, its static amounts are non-negative *)
+Fixpoint balanced_b (j : Z) (o : Z) (t : list act) : bool :=
+  match t with
+  | [] => true
+  | a :: r => if a_job a =? j
+              then let o' := o + d_ps (a_dem a) + d_pd (a_dem a) - d_dd (a_dem a) in
+                   (0 <=? d_ds (a_dem a)) && (0 <=? o') && balanced_b j o' r
+              else balanced_b j o r
+  end.
+Definition demand_ok (r : rdump) : bool :=
+  forallb (fun j => balanced_b j 0 (tour_of r)) (job_ids r) && forallb (fun a => 0 <=? a_svc a) (tour_of r).
+
+Definition compat_of (P : pworld) (j : Z) : Z := match find_job P j with Some s => j_compat s | None => 0 end.
+Definition group_of (P : pworld) (j : Z) : Z := match find_job P j with Some s => j_group s | None => 0 end.
+Definition compats (P : pworld) (r : rdump) : list Z := filter (fun c => negb (c =? 0)) (map (compat_of P) (job_ids r)).
 Definition compat_ok (P : pworld) (r : rdump) : bool :=
   match compats P r with [] => true | c :: l => forallb (Z.eqb c) l end.
+
+Definition route0_viol (P : pworld) (vs : vspec) (r : rdump) : list violation :=
+  let t := tour_of r in
+  flag (shape_ok vs t) (VShape (r_actor r)) ++
+  flag (time_feasible (pdur P) t) (VTime (r_actor r)) ++
+  flag (load_feasible (v_cap (vs_veh vs)) t) (VLoad (r_actor r)) ++
+  report (multi_ok P r) (VMulti (r_actor r)) (job_ids r) ++
+  flag (demand_ok r) (VDemand (r_actor r)) ++
+  flag (compat_ok P r) (VCompat (r_actor r)).
 
 Definition route_viol (P : pworld) (r : rdump) : list violation :=
   match find_vs P (r_actor r) with
   | None => [VRegistryDup]
-  | Some vs =>
-    let t := tour_of r in
-    (if shape_ok vs t then [] else [VShape (r_actor r)]) ++
-    (if time_feasible (pdur P) t then [] else [VTime (r_actor r)]) ++
-    (if load_feasible (v_cap (vs_veh vs)) t then [] else [VLoad (r_actor r)]) ++
-    report (multi_ok P r) (VMulti (r_actor r)) (nodup Z.eq_dec (job_ids r)) ++
-    (if compat_ok P r then [] else [VCompat (r_actor r)]) ++
-    (match job_ids r with [] => [VEmptyRoute (r_actor r)] | _ => [] end)
+  | Some vs => route0_viol P vs r
   end.
+
+Definition nonempty (r : rdump) : bool := match job_ids r with [] => false | _ => true end.
 
 (* ---------------- whole solution ---------------- *)
 Definition homes (d : dump) (j : Z) : nat :=
@@ -114,28 +133,32 @@ Definition used (d : dump) : list Z := map r_actor (d_routes d).
 Definition avail_ok (d : dump) (a : Z) : bool := Bool.eqb (memz a (d_avail d)) (negb (memz a (used d))).
 Definition actor_known (P : pworld) (a : Z) : bool := match find_vs P a with Some _ => true | None => false end.
 
-Definition groups_of (P : pworld) : list Z :=
-  nodup Z.eq_dec (filter (fun g => negb (g =? 0)) (map j_group (pw_jobs P))).
-Definition has_group (P : pworld) (g : Z) (r : rdump) : bool :=
-  existsb (fun j => match find_job P j with Some s => j_group s =? g | None => false end) (job_ids r).
+Definition groups_of (P : pworld) : list Z := filter (fun g => negb (g =? 0)) (map j_group (pw_jobs P)).
+Definition has_group (P : pworld) (g : Z) (r : rdump) : bool := existsb (fun j => group_of P j =? g) (job_ids r).
 Definition group_ok (P : pworld) (d : dump) (g : Z) : bool :=
   (length (filter (has_group P g) (d_routes d)) <=? 1)%nat.
 
-(* the pinned jobs of a lock are served by the lock's vehicle, in the lock's order *)
+(* the pinned jobs of a lock are flagged locked, served by the lock's vehicle, in the lock's order *)
 Definition lock_ok (d : dump) (l : lockspec) : bool :=
   forallb (fun j => memz j (d_locked d)) (l_jobs l) &&
   existsb (fun r => (r_actor r =? l_actor l) && list_eqb (filter (fun j => memz j (l_jobs l)) (job_ids r)) (l_jobs l))
           (d_routes d).
 
-Definition inv_b (P : pworld) (d : dump) : list violation :=
+(* everything but "no route without jobs" *)
+Definition inv0_viol (P : pworld) (d : dump) : list violation :=
   report (fun s => Nat.eqb (homes d (j_id s)) 1) (fun s => VHomes (j_id s) (homes d (j_id s))) (pw_jobs P) ++
-  report (known P) VUnknownJob (nodup Z.eq_dec (mentioned d)) ++
-  (if nodupb (d_required d) && nodupb (d_ignored d) && nodupb (d_unassigned d) then [] else [VDupPending]) ++
-  (if nodupb (used d) && forallb (actor_known P) (used d ++ d_avail d) then [] else [VRegistryDup]) ++
+  report (known P) VUnknownJob (mentioned d) ++
+  flag (nodupb (d_required d) && nodupb (d_ignored d) && nodupb (d_unassigned d)) VDupPending ++
+  flag (nodupb (used d) && forallb (actor_known P) (used d ++ d_avail d)) VRegistryDup ++
   report (avail_ok d) VRegistryAvail (map vs_id (pw_vehicles P)) ++
   flat_map (route_viol P) (d_routes d) ++
   report (group_ok P d) VGroup (groups_of P) ++
   report (lock_ok d) (fun l => VLock (l_actor l)) (pw_locks P).
+
+Definition empty_viol (d : dump) : list violation := report nonempty (fun r => VEmptyRoute (r_actor r)) (d_routes d).
+
+Definition inv_b (P : pworld) (d : dump) : list violation := inv0_viol P d ++ empty_viol d.
+Definition inv0_b (P : pworld) (d : dump) : bool := match inv0_viol P d with [] => true | _ => false end.
 
 (* ---------------- declarative reading ---------------- *)
 (* a tour that may be empty (the state between the removals of a ruin and `restore`) *)
@@ -144,6 +167,7 @@ Definition RouteOK0 (P : pworld) (r : rdump) : Prop :=
     shape_ok vs (tour_of r) = true /\
     feasible (pdur P) (vs_veh vs) (tour_of r) = true /\                      (* every window, the shift end, the capacity *)
     (forall j, In j (job_ids r) -> multi_ok P r j = true) /\                   (* multi jobs whole and in order *)
+    demand_ok r = true /\
     compat_ok P r = true.
 
 Record Inv0 (P : pworld) (d : dump) : Prop := {
@@ -160,10 +184,6 @@ Record Inv0 (P : pworld) (d : dump) : Prop := {
 
 Definition NoEmptyRoutes (d : dump) : Prop := forall r, In r (d_routes d) -> job_ids r <> [].
 Definition Inv (P : pworld) (d : dump) : Prop := Inv0 P d /\ NoEmptyRoutes d.
-
-(* the checker restricted to the weak invariant *)
-Definition weak (v : violation) : bool := match v with VEmptyRoute _ => true | _ => false end.
-Definition inv0_b (P : pworld) (d : dump) : bool := forallb weak (inv_b P d).
 
 (* entry point of the correspondence: the checker on every dumped state of a history *)
 Definition run_inv (P : pworld) (ds : list dump) : list (list violation) := map (inv_b P) ds.
